@@ -1,0 +1,18 @@
+//go:build verif
+
+package eval
+
+// Verification hooks (build tag verif): switch memoization off and count cache traffic.
+// Add-only instrumentation, see /verif/DESIGN.md section 2.6.
+
+var (
+	// VerifCacheDisabled makes every cache lookup miss and every store a no-op.
+	VerifCacheDisabled bool
+	// VerifCacheHits counts successful lookups, VerifCacheSets counts stores.
+	VerifCacheHits int64
+	VerifCacheSets int64
+)
+
+func verifCacheOff() bool { return VerifCacheDisabled }
+func verifCacheHit()      { VerifCacheHits++ }
+func verifCacheSet()      { VerifCacheSets++ }
